@@ -40,14 +40,44 @@ fn run_format(src: &str, indent: u8) -> Out {
 	}
 }
 
-/// parse errors of the real rowan parser: Ok(ranges) or the panic message
-fn run_parse(src: &str) -> Result<Vec<(usize, usize)>, String> {
+/// what the real rowan parser + tree builder did with one text
+pub struct Parsed {
+	pub errs: Vec<(usize, usize)>,
+	/// pre-order of the real tree: [1,kind] open node, [2,kind,lo,hi] token, [3] close node
+	pub ops: Vec<serde_json::Value>,
+	/// the leaves of the tree are exactly the lexer's lexemes (kind and range, in order)
+	pub yields: bool,
+	/// events/lexemes handed to `Sink::new` (cfg(jrsonnet_verif) hook)
+	pub record: Option<jrsonnet_rowan_parser::verif::ParseRecord>,
+}
+
+/// parse with the real rowan parser: Ok(Parsed) or the panic message
+fn run_parse(src: &str) -> Result<Parsed, String> {
+	use jrsonnet_rowan_parser::{rowan::{NodeOrToken, WalkEvent}, AstNode};
+	let _ = jrsonnet_rowan_parser::verif::take_last_parse();
 	guarded(|| {
-		jrsonnet_rowan_parser::parse(src)
-			.1
-			.iter()
-			.map(|e| (usize::from(e.range.start()), usize::from(e.range.end())))
-			.collect()
+		let (file, errors) = jrsonnet_rowan_parser::parse(src);
+		let record = jrsonnet_rowan_parser::verif::take_last_parse();
+		let errs = errors.iter().map(|e| (usize::from(e.range.start()), usize::from(e.range.end()))).collect();
+		let mut ops = Vec::new();
+		let mut leaves: Vec<(u16, u32, u32)> = Vec::new();
+		for ev in file.syntax().preorder_with_tokens() {
+			match ev {
+				WalkEvent::Enter(NodeOrToken::Node(n)) => ops.push(json!([1, n.kind().into_raw()])),
+				WalkEvent::Enter(NodeOrToken::Token(t)) => {
+					let r = t.text_range();
+					let (lo, hi) = (u32::from(r.start()), u32::from(r.end()));
+					ops.push(json!([2, t.kind().into_raw(), lo, hi]));
+					leaves.push((t.kind().into_raw(), lo, hi));
+				}
+				WalkEvent::Leave(NodeOrToken::Node(_)) => ops.push(json!([3])),
+				WalkEvent::Leave(NodeOrToken::Token(_)) => {}
+			}
+		}
+		// independent of the hook: the lexer's own lexemes
+		let lexed: Vec<(u16, u32, u32)> = jrsonnet_lexer::Lexer::new(src).map(|l| (l.kind.into_raw(), l.range.0 as u32, l.range.1 as u32)).collect();
+		let text_ok = file.syntax().text().to_string() == src;
+		Parsed { errs, ops, yields: leaves == lexed && text_ok, record }
 	})
 }
 
@@ -627,19 +657,70 @@ impl Ctx {
 		}
 		let mut op = json!({"op":"fmt.diag","gen":gen,"t":src,"len":src.len(),"size":src.len()});
 		match &parsed {
-			Ok(errs) => {
-				op["errs"] = json!(errs.iter().map(|(s, e)| json!([s, e])).collect::<Vec<_>>());
+			Ok(p) => {
+				op["errs"] = json!(p.errs.iter().map(|(s, e)| json!([s, e])).collect::<Vec<_>>());
 			}
 			Err(m) => {
 				op["parse_panic"] = json!(panic_class(m));
 			}
 		}
-		if matches!(parsed, Ok(ref e) if e.is_empty()) && res == "ok" {
+		if matches!(parsed, Ok(ref p) if p.errs.is_empty()) && res == "ok" {
 			// valid text, formatted: nothing for the diagnostic model to decide
 			op["trivial"] = json!(true);
 		}
 		self.w.case(op, json!({"res": res, "_class": if msg.is_empty() { String::new() } else { panic_class(&msg) }, "_msg": msg.chars().take(200).collect::<String>()}));
+		self.sink(gen, src, &parsed);
 		out
+	}
+
+	/// event protocol + tree builder: the REAL event list and lexemes of this parse (hook) go to the
+	/// Lean model of `Sink::finish`; its builder calls, error ranges and the yield of the tree are
+	/// compared with the real tree.  `wf`: the model's well-formedness predicate must hold of every
+	/// event list the real parser produces (the implementation side cannot compute it: constant).
+	fn sink(&mut self, gen: &str, src: &str, parsed: &Result<Parsed, String>) {
+		if src.len() > SINK_MAX_LEN {
+			self.bump("sink.skipped-long");
+			return;
+		}
+		let mut op = json!({"op":"fmt.sink","gen":gen,"t":src,"size":src.len()});
+		match parsed {
+			Ok(p) => {
+				let Some(rec) = &p.record else {
+					self.bump("sink.no-record");
+					return;
+				};
+				use jrsonnet_rowan_parser::verif::VerifEvent as E;
+				let ev: Vec<serde_json::Value> = rec
+					.events
+					.iter()
+					.map(|e| match e {
+						E::Pending => json!([0]),
+						E::Start { kind, forward_parent } => json!([1, kind.into_raw(), forward_parent]),
+						E::Token { kind } => json!([2, kind.into_raw()]),
+						E::Finish { wrapper, error } => json!([3, wrapper, u8::from(*error)]),
+						E::Noop => json!([4]),
+					})
+					.collect();
+				let chain = rec.events.iter().filter(|e| matches!(e, E::Start { forward_parent, .. } if *forward_parent != 0)).count();
+				let wrap = rec.events.iter().filter(|e| matches!(e, E::Finish { wrapper, .. } if *wrapper != 0)).count();
+				self.bump(&format!("sink.events.{}", bucket(rec.events.len())));
+				self.bump(&format!("sink.forward-parents.{}", bucket(chain)));
+				self.bump(&format!("sink.wrappers.{}", bucket(wrap)));
+				self.bump(if p.errs.is_empty() { "sink.errors.none" } else { "sink.errors.some" });
+				op["ev"] = json!(ev);
+				op["lx"] = json!(rec.lexemes.iter().map(|(k, lo, hi)| json!([k.into_raw(), lo, hi])).collect::<Vec<_>>());
+				self.w.case(
+					op,
+					json!({"res":"ok","wf":true,"yield":p.yields,"ops":p.ops,
+						"errs":p.errs.iter().map(|(s, e)| json!([s, e])).collect::<Vec<_>>()}),
+				);
+			}
+			Err(m) => {
+				// parser or tree builder panicked: no event list; the reference meaning still applies
+				self.bump("sink.panic");
+				self.w.case(op, json!({"res":"panic","_class":panic_class(m)}));
+			}
+		}
 	}
 
 	/// one run of the real binary against the Lean model of `main_result`, fed with the table of
@@ -721,12 +802,48 @@ impl Ctx {
 			}
 		}
 		self.bump(&format!("idem.passes-to-settle.{conv}"));
+		let mut op = json!({"op":"fmt.idem","gen":gen,"t":src,"indent":indent,"once":f1,"size":src.len()});
+		if res == "ok" && f2 != f1 {
+			// the real lexer's lexemes (kind, text) of both passes: Lean decides "same code tokens"
+			op["once_lx"] = lexemes_json(&f1);
+			op["twice_lx"] = lexemes_json(&f2);
+		}
 		self.w.case(
-			json!({"op":"fmt.idem","gen":gen,"t":src,"indent":indent,"once":f1,"size":src.len()}),
+			op,
 			json!({"res":res,"twice":f2,"_conv":conv,"_msg":msg.chars().take(200).collect::<String>(),
 				"_class": if msg.is_empty() { String::new() } else { panic_class(&msg) }}),
 		);
 		Some(f1)
+	}
+}
+
+const SINK_MAX_LEN: usize = 700;
+
+fn lexemes_json(src: &str) -> serde_json::Value {
+	json!(jrsonnet_lexer::Lexer::new(src).map(|l| json!([l.kind.into_raw(), l.text])).collect::<Vec<_>>())
+}
+
+/// Minimal reproductions of the open findings of known_findings.jsonl (text, indent: 0 = tabs).
+/// They run first on every check, so each finding's KNOWN-FINDING line is printed on every run and
+/// a repair (or a change of the defect's shape) is noticed at once.  Found by delta-debugging
+/// generated programs against the finding's own classifier.
+const FINDING_WITNESSES: [(&str, &str, u8); 4] = [
+	// the comment between `local` and its bind is printed before `local` by the first pass and dropped by the second
+	("c20_second_pass_moves_comment", "(local // c\na = 1; a)", 2),
+	("c20_second_pass_moves_comment", "(local # c\na = 1; a)", 0),
+	// a comment in an empty argument list: every pass adds one more blank line after `(` (settles after two)
+	("c20_second_pass_blank_line_after_lparen", "a(/* c */)", 2),
+	("c20_second_pass_blank_line_after_lparen", "a(/* c */)", 4),
+];
+
+fn bucket(n: usize) -> &'static str {
+	match n {
+		0 => "0",
+		1..=3 => "1-3",
+		4..=15 => "4-15",
+		16..=63 => "16-63",
+		64..=255 => "64-255",
+		_ => "256+",
 	}
 }
 
@@ -759,6 +876,11 @@ pub fn run(opts: &Opts) {
 	let thorough = opts.thorough();
 	let (n_bytes, n_soup, n_prog, n_mut) = if thorough { (6000, 12000, 2500, 8) } else { (1500, 3000, 500, 4) };
 
+	// ---- fixed corpus: one minimal witness per open finding (always first) ----
+	for (site, src, indent) in FINDING_WITNESSES {
+		c.diag("witness", src);
+		c.idem(&format!("witness.{site}"), src, indent);
+	}
 	// ---- boundary list ----
 	for s in BOUNDARY {
 		c.diag("boundary", s);
